@@ -25,7 +25,7 @@ var reachCutMu sync.Mutex
 type reachInfo struct{ calls, makes bool }
 
 func resolveWrapper(fn *ssa.Function) *ssa.Function {
-	if fn != nil && fn.Blocks == nil && strings.HasPrefix(fn.Synthetic, "bound method wrapper") {
+	if fn != nil && strings.HasPrefix(fn.Synthetic, "bound method wrapper") {
 		if m, ok := fn.Object().(*types.Func); ok && fn.Prog != nil {
 			return fn.Prog.FuncValue(m)
 		}
